@@ -309,6 +309,16 @@ fn deep_limits(cx: &mut Ctx) {
             cx.d_violation("deep_copy_disjoint(domain)", json!({"kind": "deep_copy_limit", "nesting": depth, "impl_ok": format!("{:?}", got)}));
         }
     }
+    // the measured limit from a bare VM (no script frame): deepest nesting that still answers
+    let mut deepest_ok = 0usize;
+    for levels in 1..=130usize {
+        let (a, b) = (nested_list(levels, Some(KValue::Number(1.into()))), nested_list(levels, Some(KValue::Number(1.into()))));
+        let mut vm = KotoVm::default();
+        if let Ok(true) = kvh::catch(move || matches!(vm.run_binary_op(BinaryOp::Equal, a, b), Ok(KValue::Bool(true)))) {
+            deepest_ok = levels;
+        }
+    }
+    cx.rep.extra.insert("eq_nesting_limit_bare_vm".into(), json!(deepest_ok));
     // `==` beyond the register headroom: error or true, never a panic / a wrong answer
     for levels in [8usize, 40, 120, 300] {
         let (a, b) = (nested_list(levels, Some(KValue::Number(1.into()))), nested_list(levels, Some(KValue::Number(1.0.into()))));
